@@ -215,6 +215,9 @@ def run_kani(crate, scratch, h, prop, extra_args=(), tag="", extra_cfg=(), timeo
     env["CARGO_NET_OFFLINE"] = "true"
     env["VERIF_TAB"] = str(int(os.environ.get("VERIF_SEED", "0") or 0) % 15)
     timeout = h.timeout * timeout_factor * (3 if os.environ.get("VERIF_SLOW") else 1)
+    if os.environ.get("VERIF_TIER_EFFECTIVE") == "thorough":
+        # the thorough tier is not meant for every change: generous per-harness limit
+        timeout = max(timeout, 1500) * 2
     procs = []
     t0 = time.time()
     for sv in solvers:
